@@ -63,6 +63,7 @@ def handler_body(m, owner_kind, errty):
     for i, (a, t) in enumerate(m.args):
         lines.append("o.args[%d] = %s;" % (i, as_u64(a, t)))
     lines.append("o.height = ctx.env.block.height;")
+    lines.append("o.extra = tx_marker(&ctx.env);")
     if m.kind in HAS_INFO:
         lines.append("o.sender_len = ctx.info.sender.as_str().len() as u64;")
         lines.append("o.funds = ctx.info.funds.len() as u64;")
@@ -144,7 +145,7 @@ def dispatch_harness(fx, m, msg_expr, hname, via, expect_h, props, tier, clause,
             checks.append("                assert!(o.args[%d] == %s);" % (k, as_u64("x%d" % k, t)))
         for k in range(len(m.args), 12):
             checks.append("                assert!(o.args[%d] == 0);" % k)
-        checks.append("                assert!(o.height == h);")
+        checks.append("                assert!(o.height == h && o.extra == TX_INDEX as u64 + 1);")
         if m.kind in HAS_INFO:
             checks.append("                assert!(o.sender_len == sl as u64 && o.funds == 0);")
         checks.append("            }")
@@ -762,7 +763,7 @@ def reply_method_src(r):
         body += ["o.args[5] = error.len() as u64;", "o.args[6] = if error.len() > 0 { error.as_bytes()[0] as u64 } else { 0 };"]
     else:
         params.append("result: SubMsgResult")
-        body += ["o.args[5] = match &result { SubMsgResult::Ok(_) => 1, SubMsgResult::Err(e) => 2 + e.len() as u64 };"]
+        body += ["#[allow(deprecated)]", "{ o.args[5] = match &result { SubMsgResult::Ok(r) => 100 + r.events.len() as u64 + 10 * (r.data.is_some() as u64), SubMsgResult::Err(e) => 2 + e.len() as u64 }; }"]
     if r.payload == "raw":
         params.append("#[sv::payload(raw)] payload: Binary")
         body += ["o.args[3] = payload.len() as u64;", "o.args[4] = if payload.len() > 0 { payload.as_slice()[0] as u64 } else { 0 };", "o.extra = if payload.len() > 1 { payload.as_slice()[1] as u64 } else { 0 };"]
@@ -827,7 +828,7 @@ def reply_harness(fx, e, outcome, hname, props, tier, data_case=None):
             lines.append("                assert!(o.args[5] == el as u64 && (el == 0 || o.args[6] == ec as u64));")
         else:
             lines.append("                assert!(o.args[1] == 0 && o.args[2] == 0);")
-            lines.append("                assert!(o.args[5] == %s);" % ("1" if outcome == "ok" else "2 + el as u64"))
+            lines.append("                assert!(o.args[5] == %s);" % ("100 + ne as u64 + 10 * (with_data as u64)" if outcome == "ok" else "2 + el as u64"))
         lines.append("            }")
         lines.append("            _ => assert!(false),")
         lines.append("        }")
